@@ -39,7 +39,9 @@ T_Dg == IsEvent("dg") /\ LET r == Rec[l]
                              e == IF r.dir = "c2s" THEN "c" ELSE "s" IN
   IF closing[e].draining THEN TxDatagramWhileDraining(e)
   ELSE IF closing[e].on THEN TxDatagramWhileClosing(e, r.hash) ELSE UNCHANGED evars
-T_DgRx == IsEvent("dgrx") /\ RxDatagram(IF Rec[l].dir = "c2s" THEN "s" ELSE "c")
+\* a datagram is handed to the endpoint (rx interceptor of the endpoint, i.e. when the endpoint takes it from its
+\* socket queue - not when the network enqueued it: a datagram queued before the close is answered after it)
+T_DgRx == IsEvent("rxd") /\ RxDatagram(Rec[l].ep)
 T_AppOpen == IsEvent("app_open") /\ AppOpen(Rec[l].ep, Rec[l].id)
 \* "panic" / "stall" lines have no action
 
